@@ -218,4 +218,196 @@ theorem classify_value (dia : Dialect) (s : Str) (h : isReservedWord s = false) 
         · exact absurd hg.1 (h5 hg.2.1 hg.2.2.1 hg.2.2.2.1 hg.2.2.2.2.1 hg.2.2.2.2.2.1 hg.2.2.2.2.2.2)
         · simp [hg]
 
+
+/-! ### the remaining presentations at token level -/
+
+theorem quote_dispatch (dia : Dialect) (q : Nat) (hq : q = 34 ∨ q = 39) (r : Str) (line col : Nat) :
+    stepTok dia true q r line col
+      = L.bind (scanDelim dia q r line (col + 1) false [] true) (fun s => L.pure (keyPeek .key .qvalue s.acc.reverse s.pos)) := by
+  have hcls : classOf dia q = .quote := by rcases hq with h | h <;> subst h <;> cases dia <;> decide
+  simp only [stepTok, hcls, metaOfCls, bind_eq, pure_eq]
+  simp only [show ((Meta.general != Meta.close && Meta.general != Meta.ws && !true) = false) from rfl, reportIf_false, L.pure_bind]
+  simp only [show ¬ (Cls.quote = Cls.eol) from by decide, show ¬ (Cls.quote = Cls.ws) from by decide,
+    show ¬ (Cls.quote = Cls.hash) from by decide, show ¬ (Cls.quote = Cls.undersc) from by decide,
+    show ¬ (Cls.quote = Cls.obrak) from by decide, show ¬ (Cls.quote = Cls.cbrak) from by decide,
+    show ¬ (Cls.quote = Cls.ocurl) from by decide, show ¬ (Cls.quote = Cls.ccurl) from by decide, if_false, if_true]
+
+/-- quoted string, CIF 1.1 -/
+theorem stepTok_quoted1 (q : Nat) (hq : q = 34 ∨ q = 39) (s ctx : Str) (line col : Nat) (pol : Policy) (log : List Report)
+    (hok : quotedOk .cif1 q s = true) (hctx : followOk .cif1 ctx = true) :
+    stepTok .cif1 true q (s ++ q :: ctx) line col pol log
+      = .ok (.tok ⟨.qvalue, s, line, col + colAdd s + 2⟩ ⟨ctx, line, col + colAdd s + 2⟩) log := by
+  simp only [quotedOk, Bool.and_eq_true] at hok
+  obtain ⟨⟨h1, h2⟩, h3⟩ := hok
+  have hctx' : ctx = [] ∨ ∃ d r, ctx = d :: r ∧ isWs d = true := by
+    cases ctx with
+    | nil => exact Or.inl rfl
+    | cons d r => exact Or.inr ⟨d, r, rfl, by simpa [followOk] using hctx⟩
+  have hscan := scanDelim_cif1 q hq ctx hctx' line pol log s [] (col + 1) true h1 h2 h3
+  rw [quote_dispatch .cif1 q hq, L.bind_ok hscan]
+  rcases hctx' with h | ⟨d, r, h, hd⟩
+  · subst h; simp [keyPeek, mkTok, Nat.add_assoc]; omega
+  · subst h
+    have : ¬ d = colon := by
+      simp [isWs, isBlank, isEol] at hd
+      simp only [colon]; omega_cu
+    simp [keyPeek, mkTok, this, Nat.add_assoc]; omega
+
+/-- quoted table key, CIF 2.0: the string, its closing quote, a colon -/
+theorem stepTok_key2 (q : Nat) (hq : q = 34 ∨ q = 39) (s ctx : Str) (line col : Nat) (pol : Policy) (log : List Report)
+    (hok : quotedOk .cif2 q s = true) :
+    stepTok .cif2 true q (s ++ q :: colon :: ctx) line col pol log
+      = .ok (.tok ⟨.key, s, line, col + colAdd s + 3⟩ ⟨ctx, line, col + colAdd s + 3⟩) log := by
+  simp only [quotedOk, Bool.and_eq_true] at hok
+  obtain ⟨⟨h1, h2⟩, h3⟩ := hok
+  have hne : (colon :: ctx).head? ≠ some q := by
+    simp only [List.head?_cons, ne_eq, Option.some.injEq, colon]
+    rcases hq with h | h <;> subst h <;> decide
+  have hscan := scanDelim_cif2 q hq (colon :: ctx) line pol log s none [] (col + 1) true h1 trivial h2 h3 (fun _ _ => hne)
+  simp only [Option.isSome_none] at hscan
+  rw [quote_dispatch .cif2 q hq, L.bind_ok hscan]
+  simp [keyPeek, mkTok, Nat.add_assoc]; omega
+
+/-- scan_delim_string on an opening triple delimiter hands over to scan_triple_delim_string -/
+theorem scanDelim_triple_open (q : Nat) (hq : q = 34 ∨ q = 39) (r : Str) (line col : Nat) (pol : Policy) (log : List Report) :
+    scanDelim .cif2 q (q :: q :: r) line col false [] true pol log = scanTriple .cif2 q r line (col + 2) false [] 0 0 pol log := by
+  have hqa : allowedBmp .cif2 q = true := by rcases hq with h | h <;> subst h <;> decide
+  simp only [scanDelim, bind_eq, pure_eq]
+  rw [L.bind_ok (scanUChar_bmp .cif2 q hqa line col _ pol log)]
+  simp
+
+/-- triple-quoted string -/
+theorem stepTok_triple (q : Nat) (hq : q = 34 ∨ q = 39) (s ctx : Str) (line col : Nat) (pol : Policy) (log : List Report)
+    (hok : tripleOk .cif2 q s = true) (hfit : linesFit (col + 3) s = true) (hctx : followOk .cif2 ctx = true) :
+    stepTok .cif2 true q (q :: q :: (s ++ q :: q :: q :: ctx)) line col pol log
+      = .ok (.tok ⟨.qvalue, s, (posAfter line (col + 3) s).1, (posAfter line (col + 3) s).2 + 3⟩
+                  ⟨ctx, (posAfter line (col + 3) s).1, (posAfter line (col + 3) s).2 + 3⟩) log := by
+  simp only [tripleOk, Bool.and_eq_true] at hok
+  obtain ⟨⟨_, h1⟩, h2⟩ := hok
+  have hscan := scanTriple_ok q hq ctx pol log s none [] line (col + 1 + 2) 0 0 h1 trivial h2 (by decide) hfit
+  simp only [Option.isSome_none] at hscan
+  have hscan' := (scanDelim_triple_open q hq (s ++ q :: q :: q :: ctx) line (col + 1) pol log).trans hscan
+  rw [quote_dispatch .cif2 q hq, L.bind_ok hscan']
+  cases ctx with
+  | nil => simp [keyPeek, mkTok]
+  | cons d r =>
+    have : ¬ d = colon := by
+      simp only [followOk, isWs, isBlank, isEol, Bool.or_eq_true, beq_iff_eq, Bool.and_eq_true] at hctx
+      simp only [colon]; omega_cu
+    simp [keyPeek, mkTok, this]
+
+/-- triple-quoted table key -/
+theorem stepTok_triple_key (q : Nat) (hq : q = 34 ∨ q = 39) (s ctx : Str) (line col : Nat) (pol : Policy) (log : List Report)
+    (hok : tripleOk .cif2 q s = true) (hfit : linesFit (col + 3) s = true) :
+    stepTok .cif2 true q (q :: q :: (s ++ q :: q :: q :: colon :: ctx)) line col pol log
+      = .ok (.tok ⟨.key, s, (posAfter line (col + 3) s).1, (posAfter line (col + 3) s).2 + 4⟩
+                  ⟨ctx, (posAfter line (col + 3) s).1, (posAfter line (col + 3) s).2 + 4⟩) log := by
+  simp only [tripleOk, Bool.and_eq_true] at hok
+  obtain ⟨⟨_, h1⟩, h2⟩ := hok
+  have hscan := scanTriple_ok q hq (colon :: ctx) pol log s none [] line (col + 1 + 2) 0 0 h1 trivial h2 (by decide) hfit
+  simp only [Option.isSome_none] at hscan
+  have hscan' := (scanDelim_triple_open q hq (s ++ q :: q :: q :: colon :: ctx) line (col + 1) pol log).trans hscan
+  rw [quote_dispatch .cif2 q hq, L.bind_ok hscan']
+  simp [keyPeek, mkTok]
+
+/-- text field (the semicolon is the first character of its line) -/
+theorem stepTok_text (dia : Dialect) (s ctx : Str) (line : Nat) (pol : Policy) (log : List Report)
+    (hok : textOk dia s = true) (hfit : linesFit 1 (s ++ [10]) = true) (hctx : followOk dia ctx = true) :
+    stepTok dia true 59 (s ++ 10 :: 59 :: ctx) line 0 pol log
+      = .ok (.tok ⟨.tvalue, s, (posAfter line 1 s).1 + 1, 1⟩ ⟨ctx, (posAfter line 1 s).1 + 1, 1⟩) log := by
+  simp only [textOk, Bool.and_eq_true] at hok
+  have hcls : classOf dia 59 = .semi := by cases dia <;> decide
+  have hscan := scanText_ok dia ctx pol log s none [] line 1 0 hok.1 trivial (by simpa using hok.2) (by decide) hfit (by simp)
+  simp only [Option.isSome_none] at hscan
+  simp only [stepTok, hcls, metaOfCls, bind_eq, pure_eq]
+  simp only [show ((Meta.general != Meta.close && Meta.general != Meta.ws && !true) = false) from rfl, reportIf_false, L.pure_bind]
+  simp only [show ¬ (Cls.semi = Cls.eol) from by decide, show ¬ (Cls.semi = Cls.ws) from by decide,
+    show ¬ (Cls.semi = Cls.hash) from by decide, show ¬ (Cls.semi = Cls.undersc) from by decide,
+    show ¬ (Cls.semi = Cls.obrak) from by decide, show ¬ (Cls.semi = Cls.cbrak) from by decide,
+    show ¬ (Cls.semi = Cls.ocurl) from by decide, show ¬ (Cls.semi = Cls.ccurl) from by decide,
+    show ¬ (Cls.semi = Cls.quote) from by decide, if_false, if_true, Nat.zero_add]
+  rw [L.bind_ok hscan]
+  have hcol : ∀ d r, ctx = d :: r → ¬ d = colon := by
+    intro d r h
+    subst h
+    simp only [followOk, isWs, isBlank, isEol, Bool.or_eq_true, beq_iff_eq, Bool.and_eq_true] at hctx
+    simp only [colon]; omega_cu
+  cases dia with
+  | cif1 => simp [mkTok]
+  | cif2 =>
+    cases ctx with
+    | nil => simp [keyPeek, mkTok]
+    | cons d r => simp [keyPeek, mkTok, hcol d r rfl]
+
+/-- whitespace-delimited value -/
+theorem stepTok_bare (dia : Dialect) (s ctx : Str) (line col : Nat) (pol : Policy) (log : List Report)
+    (hok : bareOk dia s = true) (hsemi : semiOk s col = true)
+    (hctx : ctx = [] ∨ ∃ d r, ctx = d :: r ∧ isWs d = true) :
+    ∃ c r, s = c :: r ∧
+    stepTok dia true c (r ++ ctx) line col pol log
+      = .ok (.tok ⟨.value, s, line, col + colAdd s⟩ ⟨ctx, line, col + colAdd s⟩) log := by
+  cases s with
+  | nil => simp [bareOk] at hok
+  | cons c r =>
+    refine ⟨c, r, rfl, ?_⟩
+    simp only [bareOk, Bool.and_eq_true, Bool.not_eq_true', Bool.or_eq_false_iff, beq_eq_false_iff_ne, ne_eq] at hok
+    obtain ⟨⟨⟨⟨hunits, hnws⟩, hfirst⟩, hbr⟩, hres⟩ := hok
+    have hbr2 : dia = .cif2 → (c :: r).all (fun x => !(x == 91 || x == 93 || x == 123 || x == 125)) = true := by
+      intro hd; subst hd; exact hbr
+    have hf : UF dia c := okUnits_head_facts dia c r hunits
+    have hnws1 : isWs c = false := by
+      simp only [List.all_cons, Bool.and_eq_true, Bool.not_eq_true'] at hnws; exact hnws.1
+    have hmeta : metaOfCls (classOf dia c) ≠ .ws ∧ metaOfCls (classOf dia c) ≠ .open_ ∧ metaOfCls (classOf dia c) ≠ .close := by
+      refine ⟨?_, ?_, ?_⟩
+      · have := hf.mws; simp only [metaOf] at this; intro h; have h' := this.mp h; simp [hnws1] at h'
+      · have := hf.mopen; simp only [metaOf] at this; intro h; obtain ⟨hd, hc⟩ := this.mp h
+        have := hbr2 hd
+        simp only [List.all_cons, Bool.and_eq_true, Bool.not_eq_true', Bool.or_eq_false_iff, beq_eq_false_iff_ne] at this
+        rcases hc with hc | hc
+        · exact this.1.1.1.1 hc
+        · exact this.1.1.2 hc
+      · have := hf.mclose; simp only [metaOf] at this; intro h; obtain ⟨hd, hc⟩ := this.mp h
+        have := hbr2 hd
+        simp only [List.all_cons, Bool.and_eq_true, Bool.not_eq_true', Bool.or_eq_false_iff, beq_eq_false_iff_ne] at this
+        rcases hc with hc | hc
+        · exact this.1.1.1.2 hc
+        · exact this.1.2 hc
+    have hc1 : ¬ classOf dia c = .eol := by rw [hf.eol]; simp [isWs, isEol] at hnws1; exact hnws1.2
+    have hc2 : ¬ classOf dia c = .ws := by rw [hf.ws]; simp [isWs] at hnws1; simp [hnws1.1]
+    have hc3 : ¬ classOf dia c = .hash := by rw [hf.hash]; exact hfirst.1.1.1.2
+    have hc4 : ¬ classOf dia c = .undersc := by rw [hf.undersc]; exact hfirst.2
+    have hc9 : ¬ classOf dia c = .quote := by rw [hf.quote]; rintro (h | h); exact hfirst.1.1.1.1 h; exact hfirst.1.2 h
+    have hc5 : ¬ classOf dia c = .obrak := by intro h; apply hmeta.2.1; rw [h]; rfl
+    have hc6 : ¬ classOf dia c = .cbrak := by intro h; apply hmeta.2.2; rw [h]; rfl
+    have hc7 : ¬ classOf dia c = .ocurl := by intro h; apply hmeta.2.1; rw [h]; rfl
+    have hc8 : ¬ classOf dia c = .ccurl := by intro h; apply hmeta.2.2; rw [h]; rfl
+    have hcv := classify_value dia (c :: r) hres
+    simp only [stepTok, bind_eq, pure_eq]
+    have hrep : ((metaOfCls (classOf dia c) != Meta.close && metaOfCls (classOf dia c) != Meta.ws && !true) = false) := by simp
+    simp only [hrep, reportIf_false, L.pure_bind, hc1, hc2, hc3, hc4, hc5, hc6, hc7, hc8, hc9, if_false]
+    by_cases hs : classOf dia c = .semi
+    · have hc59 : c = 59 := hf.semi.mp hs
+      subst hc59
+      have hcol : ¬ col + 1 = 1 := by
+        simp [semiOk] at hsemi; omega
+      simp only [hs, if_true, hcol, if_false]
+      have hunits' : okUnits dia none r = true := by
+        have := (ok_step dia none 59 r [] hunits trivial 0 0 acceptAll []).2.1
+        simpa [nextPend, isLeadU] using this
+      have hnws' : r.all (fun x => !isWs x) = true := by
+        simp only [List.all_cons, Bool.and_eq_true] at hnws; exact hnws.2
+      have hbr' : dia = .cif2 → r.all (fun x => !(x == 91 || x == 93 || x == 123 || x == 125)) = true := by
+        intro hd; have := hbr2 hd; simp only [List.all_cons, Bool.and_eq_true] at this; exact this.2
+      have hscan := scanUnquoted_ok dia ctx hctx line pol log r none [59] (col + 1) 0 true true hunits' trivial hnws' hbr'
+      simp only [Option.isSome_none] at hscan
+      rw [L.bind_ok hscan]
+      have : (r.reverse ++ [59]).reverse = 59 :: r := by simp
+      simp only [this, finishUnquoted, hcv, L.pure_apply, mkTok, colAdd_cons]
+      simp [isTrailU, Nat.add_assoc]
+    · simp only [hs, if_false, Nat.add_sub_cancel]
+      have hscan := scanUnquoted_ok dia ctx hctx line pol log (c :: r) none [] col 0 true true hunits trivial hnws hbr2
+      simp only [Option.isSome_none, List.cons_append] at hscan
+      rw [L.bind_ok hscan]
+      simp [finishUnquoted, hcv, mkTok]
+
 end CifModel.Model.Lexer
